@@ -439,3 +439,113 @@ Print Assumptions C03_operands_valid.
 Print Assumptions C03_chain_assoc.
 Print Assumptions C03_order_is_executable.
 Print Assumptions C03_computed_order_executes.
+
+(* ================================================================================================================ *)
+(* Tie (T): find_entries_and_exits, find_parents_and_children and topological_sort as translated on this run from the
+   current source text of reservoirpy/utils/graphflow.py (coq/gen/Gen_graphflow.v, by tools/vlib/py2coq_graph.py; the
+   meaning of set / defaultdict / deque / list / for / while / raise is base/PyColl.v).  Parameters of the generated code:
+   [ord_n k s] = the order in which Python iterates over the set s at conversion site k, [srt l] = `sorted(list(edges),
+   key=parent.name + child.name)`; ALL that is assumed about them is that they return a permutation of their argument. *)
+From RV Require base.PyColl gen.Gen_graphflow proofs.Gen_graphflow_eq.
+
+Section Generated.
+Variable ord_n : nat -> list node -> list node.
+Variable srt : list edge -> list edge.
+Hypothesis Hord : forall k s, Permutation (ord_n k s) s.
+Hypothesis Hsrt : forall l, Permutation (srt l) l.
+
+(* the generated find_entries_and_exits returns the model's entries / exits (as duplicate-free lists of the same elements),
+   hence -- with C03_entries_exits -- exactly the nodes without predecessors / successors *)
+Theorem C03_generated_entries_exits (V : list node) (E : list edge) :
+  let r := Gen_graphflow.GenGraphflow.find_entries_and_exits ord_n V E in
+  (NoDup (fst r) /\ forall v, In v (fst r) <-> In v (entries V E)) /\
+  (NoDup (snd r) /\ forall v, In v (snd r) <-> In v (exits V E)).
+Proof. exact (Gen_graphflow_eq.gen_entries_exits ord_n Hord V E). Qed.
+
+(* the generated find_parents_and_children: the dictionaries hold, at every key, the model's parents / children LISTS of
+   the name-sorted edge list (`d[v]` and `d.get(v, ())`) *)
+Theorem C03_generated_parents_children (E : list edge) (v : node) :
+  let r := Gen_graphflow.GenGraphflow.find_parents_and_children srt E in
+  PyColl.dd_getitem (fst r) v = parents (srt E) v /\ PyColl.dd_getitem (snd r) v = children (srt E) v /\
+  PyColl.dd_get (fst r) v [] = parents (srt E) v /\ PyColl.dd_get (snd r) v [] = children (srt E) v.
+Proof. exact (Gen_graphflow_eq.gen_parents_children srt E v). Qed.
+
+(* the generated topological_sort.  [inputs] is the optional third argument: None (the entry list is computed by the
+   generated find_entries_and_exits, in the order of site 0) or the entry nodes, each once, in ANY order (what Model passes);
+   [fuel] bounds the iterations of `while len(inputs) > 0` ([enough_fuel]: 1 + |V| + 2|E|).
+   Outcomes: [Val l] = `return ordered_nodes`, [Exc RuntimeError] = "Model has a cycle", [Exc KeyError | ValueError |
+   IndexError] = a failing `edges.remove` / `parents[m].remove` / `inputs.pop`, [OutOfFuel] = loop cut. *)
+Definition C03_good_inputs (V : list node) (E : list edge) (inputs : option (list node)) : Prop :=
+  match inputs with
+  | None => True
+  | Some ents => NoDup ents /\ forall v, In v ents <-> In v V /\ has_in v E = false
+  end.
+Definition C03_enough_fuel (V : list node) (E : list edge) (fuel : nat) : Prop := S (length V + length E + length E) <= fuel.
+Definition C03_conv (r : res) : PyColl.py (list node) :=
+  match r with Sorted l => PyColl.Val l | Cycle => PyColl.Exc PyColl.RuntimeError | OutOfFuel => PyColl.OutOfFuel end.
+
+(* it IS the model's Kahn loop (same result, same order, for every fuel) on the name-sorted edge list: deque = reversed
+   stack, `parents[m]` = senders of the remaining edges into m, `edges` = the remaining edges *)
+Theorem C03_generated_toposort_is_model (V : list node) (E : list edge) (inputs : option (list node)) (fuel : nat) :
+  NoDup E -> wf V E -> C03_good_inputs V E inputs ->
+  let ents := match inputs with None => fst (Gen_graphflow.GenGraphflow.find_entries_and_exits ord_n V E) | Some i => i end in
+  Gen_graphflow.GenGraphflow.topological_sort ord_n srt fuel V E inputs = C03_conv (kahn fuel (srt E) (rev ents) (srt E) []) /\
+  (C03_enough_fuel V E fuel ->
+   Gen_graphflow.GenGraphflow.topological_sort ord_n srt fuel V E inputs = C03_conv (topo ents V (srt E))).
+Proof. intros HE Hwf Hin. split; [exact (Gen_graphflow_eq.gen_toposort_is_kahn ord_n srt Hord Hsrt V E inputs HE Hwf Hin fuel)
+  | exact (Gen_graphflow_eq.gen_toposort_is_topo ord_n srt Hord Hsrt V E inputs HE Hwf Hin fuel)]. Qed.
+
+(* sound: whatever it returns is a permutation of the nodes in which every edge goes forward *)
+Theorem C03_generated_toposort_sound (V : list node) (E : list edge) (inputs : option (list node)) (fuel : nat) (l : list node) :
+  NoDup V -> NoDup E -> wf V E -> C03_good_inputs V E inputs ->
+  Gen_graphflow.GenGraphflow.topological_sort ord_n srt fuel V E inputs = PyColl.Val l ->
+  Permutation l V /\ (forall u v, In (u, v) E -> before l u v).
+Proof. intros HV HE Hwf Hin. exact (Gen_graphflow_eq.gen_toposort_sound ord_n srt Hord Hsrt V E inputs HE Hwf Hin fuel l HV). Qed.
+
+(* every graph containing a directed cycle raises the RuntimeError *)
+Theorem C03_generated_toposort_rejects_cycles (V : list node) (E : list edge) (inputs : option (list node)) (fuel : nat) :
+  NoDup E -> wf V E -> C03_good_inputs V E inputs -> C03_enough_fuel V E fuel ->
+  (exists v, reach E v v) ->
+  Gen_graphflow.GenGraphflow.topological_sort ord_n srt fuel V E inputs = PyColl.Exc PyColl.RuntimeError.
+Proof. intros HE Hwf Hin. exact (Gen_graphflow_eq.gen_toposort_rejects_cycles ord_n srt Hord Hsrt V E inputs HE Hwf Hin fuel). Qed.
+
+(* every graph admitting a rank function (every DAG) is accepted *)
+Theorem C03_generated_toposort_accepts_dags (V : list node) (E : list edge) (inputs : option (list node)) (fuel : nat)
+    (rank : node -> nat) :
+  NoDup E -> wf V E -> C03_good_inputs V E inputs -> C03_enough_fuel V E fuel ->
+  (forall u v, In (u, v) E -> rank u < rank v) ->
+  exists l, Gen_graphflow.GenGraphflow.topological_sort ord_n srt fuel V E inputs = PyColl.Val l.
+Proof. intros HE Hwf Hin. exact (Gen_graphflow_eq.gen_toposort_accepts_dags ord_n srt Hord Hsrt V E inputs HE Hwf Hin fuel rank). Qed.
+
+(* no other outcome: never KeyError / ValueError / IndexError, never out of fuel *)
+Theorem C03_generated_toposort_total (V : list node) (E : list edge) (inputs : option (list node)) (fuel : nat) :
+  NoDup E -> wf V E -> C03_good_inputs V E inputs -> C03_enough_fuel V E fuel ->
+  (exists l, Gen_graphflow.GenGraphflow.topological_sort ord_n srt fuel V E inputs = PyColl.Val l) \/
+  Gen_graphflow.GenGraphflow.topological_sort ord_n srt fuel V E inputs = PyColl.Exc PyColl.RuntimeError.
+Proof. intros HE Hwf Hin. exact (Gen_graphflow_eq.gen_toposort_total ord_n srt Hord Hsrt V E inputs HE Hwf Hin fuel). Qed.
+End Generated.
+
+(* non-vacuity: the generated code run on the diamond 0 -> {1,2} -> 3 and on a 2-cycle behind an entry node, with the
+   identity for both parameters (they satisfy the two hypotheses) *)
+Example C03_generated_example :
+  let idn := fun (_ : nat) (s : list node) => s in let ide := fun l : list edge => l in
+  (forall k s, Permutation (idn k s) s) /\ (forall l, Permutation (ide l) l) /\
+  Gen_graphflow.GenGraphflow.topological_sort idn ide 13 [0; 1; 2; 3] [(0, 1); (0, 2); (1, 3); (2, 3)] None = PyColl.Val [0; 2; 1; 3] /\
+  Gen_graphflow.GenGraphflow.topological_sort idn ide 13 [0; 1; 2; 3] [(0, 1); (0, 2); (1, 3); (2, 3)] (Some [0]) = PyColl.Val [0; 2; 1; 3] /\
+  C03_good_inputs [0; 1; 2; 3] [(0, 1); (0, 2); (1, 3); (2, 3)] (Some [0]) /\
+  Gen_graphflow.GenGraphflow.topological_sort idn ide 10 [0; 1; 2] [(0, 1); (1, 2); (2, 1)] None = PyColl.Exc PyColl.RuntimeError /\
+  Gen_graphflow.GenGraphflow.find_entries_and_exits idn [0; 1; 2; 3] [(0, 1); (0, 2); (1, 3); (2, 3)] = ([0], [3]).
+Proof. cbv zeta. split; [intros; apply Permutation_refl|]. split; [intros; apply Permutation_refl|].
+  split; [vm_compute; reflexivity|]. split; [vm_compute; reflexivity|]. split.
+  - split; [repeat constructor; simpl; tauto|]. intros v. simpl. split.
+    + intros [<-|[]]. split; [auto | reflexivity].
+    + intros [[<-|[<-|[<-|[<-|[]]]]] Hh]; vm_compute in Hh; try discriminate; auto.
+  - split; vm_compute; reflexivity. Qed.
+
+Print Assumptions C03_generated_entries_exits.
+Print Assumptions C03_generated_parents_children.
+Print Assumptions C03_generated_toposort_is_model.
+Print Assumptions C03_generated_toposort_sound.
+Print Assumptions C03_generated_toposort_rejects_cycles.
+Print Assumptions C03_generated_toposort_accepts_dags.
+Print Assumptions C03_generated_toposort_total.
